@@ -126,6 +126,11 @@ def get (s : St1) : Option Nat := match s.slot with | .present c => some c | _ =
 def isRegistered (s : St1) : Bool := s.slot != .absent
 def isRequested (s : St1) : Bool := s.slot == .requested
 
+/-- `GetRoster` (treestorage.go:150-162): the trees that are stored are walked (over the ids `ids` the store may hold;
+`ro k` = the roster tree `k` is built over) and a roster is found iff some stored tree carries it -/
+def getRosterIn (ids : List Nat) (ro : Nat → Nat) (s : St) (r : Nat) : Bool :=
+  ids.any fun k => (get (s.at_ k)).isSome && ro k == r
+
 namespace Drv
 
 /-- ids 0..5; tree k belongs to roster k / 3 -/
@@ -193,7 +198,7 @@ def step (st : State) (toks : List String) : State × String :=
     | none => (st, "bad-op")
   | ["roster", r] => match r.toNat? with
     | some r =>
-      let found := (List.range nIds).any fun k => (get (x.at_ k)).isSome && k / 3 == r
+      let found := getRosterIn (List.range nIds) (· / 3) x r
       (st, s!"{found} {obs x}")
     | none => (st, "bad-op")
   | ["timer", k] => match idOf k with
